@@ -30,6 +30,7 @@ KINDS = [
     ("invariant not satisfied at end of loop body", "inv-step"),
     ("invariant not satisfied before loop", "inv-entry"),
     ("decreases not satisfied", "decreases"),
+    ("could not prove termination", "decreases"),
     ("assertion failed", "assert"),
     ("possible division by zero", "div-zero"),
     ("index out of bounds", "bounds"),
